@@ -607,7 +607,10 @@ Section Wire.
             else
               match t with
               | DLeaf st => soft_leaf st nillable txt
-              | DArr _ _ el => do _ <- mapM (soft k el true) kids; Ok tt
+              | DArr _ _ el =>
+                  (* array_from_element; its own occurrence check of the items is against the
+                     item class of Array(T), min_occurs = 0 and max_occurs = unbounded: vacuous *)
+                  do _ <- mapM (soft k el true) kids; Ok tt
               | DRef c =>
                   match flat U c with
                   | None => Crash KeyError
